@@ -48,7 +48,7 @@ def parseChunk (ctx : Ctx) : Sexp → Option Chunk
   | .list [.atom "val", e, s] => do some (.val (← parseExpr ctx e) (← strOf? s))
   | _ => none
 
-def parseLeaf (ctx : Ctx) : Sexp → Option Leaf
+def parseLeaf (ctx : Ctx) : Sexp → Option Fmt.Leaf
   | .list (.atom "print" :: i :: cs) => do some (.print (← toNat? i) (← cs.mapM (parseChunk ctx)))
   | .list [.atom k, i, t] => do
       let kind ← if k == "assert" then some PKind.assert else if k == "assume" then some PKind.assume else none
